@@ -837,6 +837,41 @@ def r12(ctx, facts):
         r.instance("no-default-type", True, "do_parse builds no Ok value of its own", b.span, nontrivial=False)
 
 
+def r13(ctx, facts):
+    """the paged row stream asks the lending iterator `rows_remaining() != 0` and then unwraps `next()` (a reviewed site of R1):
+    that is sound only while next() answers None exactly when the announced row count is used up - a short or truncated page must
+    come out as `Some(Err(..))`, row by row, never as an early None (seed C08-k)."""
+    from ..util import dj_of, in_set, backward_slice
+    r = ctx.rule("R13", "RawRowLendingIterator::next returns None only when the announced row count is exhausted (the pager unwraps it under rows_remaining() != 0)", floor=1)
+    b = facts.one(r"^scylla_cql::deserialize::result::RawRowLendingIterator::next$")
+    dj = dj_of(b, facts)
+    subs = [c for bb, c in b.calls() if bb in b.live_blocks and (c.name or c.decl or "").split("::")[-1] in ("checked_sub", "checked_add")
+            and any(isinstance(e, list) and e[0] == "f" and e[2] == "remaining" for d in [b.single_def(c.args[0][1][0])] if c.args and c.args[0][0] in ("c", "m") and d and d[0] == "stmt" and d[3][0] == "use" and d[3][1][0] in ("c", "m") for e in d[3][1][1][1])]
+    n = 0
+    for bb in sorted(b.live_blocks):
+        for st in b.stmts(bb):
+            if not (st[0] == "A" and st[1][0] == 0 and not st[1][1] and st[2][0] == "agg" and st[2][1][0] == "adt" and st[2][1][1] == "core::option::Option" and st[2][1][2] == "None"):
+                continue
+            n += 1
+            ok = True
+            for stt in dj.states_at(bb):
+                exhausted = any(in_set(stt.get(("disc", (c.dest[0], ()))), {0}) for c in subs) or \
+                    any(k[0] == "val" and k[1][1] and k[1][1][-1] == "remaining" and in_set(v, {0}) for k, v in stt.items())
+                if not exhausted:
+                    ok = False
+            r.instance("none-only-when-exhausted#%d" % n, ok,
+                       "next() answers None in a state where `remaining` is not known to be used up: rows_remaining() still announces rows, "
+                       "and QueryPager::next unwraps the None it gets (panic instead of a row deserialization error)", b.stmt_span(st))
+    # the `?` on the decrement is the one legitimate early None
+    res = [c for bb, c in b.calls() if bb in b.live_blocks and (c.decl or "").endswith("FromResidual::from_residual") and c.dest[0] == 0]
+    for k, c in enumerate(res):
+        locs = backward_slice(b, c.args[0])[0] if c.args and c.args[0][0] in ("c", "m") else set()
+        r.instance("early-none-is-the-decrement#%d" % k, any(x.dest[0] in locs for x in subs),
+                   "a `?` in next() turns something other than the exhausted row count into None", c.span)
+    if not subs:
+        raise AnchorLost("RawRowLendingIterator::next: the checked decrement of `remaining` not found")
+
+
 def check(ctx):
     facts = ctx.facts("default")
     try:
@@ -849,7 +884,7 @@ def check(ctx):
     for p, n in per.items():
         anc.instance("entry:" + p, n > 0, "%d bodies match" % n, nontrivial=False)
     ctx.extra["decode_reachable_bodies"] = len(pred)
-    for fn in (lambda: r1(ctx, facts, cg, pred), lambda: r2(ctx, facts), lambda: r3(ctx, facts, cg, pred), lambda: r4(ctx, facts, cg, pred), lambda: r5(ctx, facts), lambda: r6(ctx, facts), lambda: r7(ctx, inline_view_(facts)), lambda: r8(ctx, facts, pred), lambda: r11_guard(ctx), lambda: r12(ctx, inline_view_(facts))):
+    for fn in (lambda: r1(ctx, facts, cg, pred), lambda: r2(ctx, facts), lambda: r3(ctx, facts, cg, pred), lambda: r4(ctx, facts, cg, pred), lambda: r5(ctx, facts), lambda: r6(ctx, facts), lambda: r7(ctx, inline_view_(facts)), lambda: r8(ctx, facts, pred), lambda: r11_guard(ctx), lambda: r12(ctx, inline_view_(facts)), lambda: r13(ctx, inline_view_(facts))):
         try:
             fn()
         except AnchorLost as ex:
